@@ -27,6 +27,23 @@ def build(mod, prop, tier, seed, stats, per_system, samples, wall, nviol, ntasks
         "explanation": desc.get("explanation", ""),
         "known_findings_reported": sorted(listed.keys()),
     }
+    if stats.get("pair_tasks"):
+        from mc import faults, pairs
+
+        cov["bounds"] = dict(cov["bounds"])
+        cov["bounds"]["derived_families"] = {
+            "tasks": int(stats.get("pair_tasks", 0)),
+            "Pair:<System> (mc/pairs.py)": "two instances of a base system of this check in one process (same configuration twice with "
+            "draws of their own, and neighbouring configurations; %d configurations per system), events tagged by instance, each "
+            "instance judged by its own oracle; schedules alt / free / seq / blocks, every event sequence from the initial state up "
+            "to the depth whose node count stays below that of the base task (cap %d nodes, a quarter for systems with "
+            "millisecond steps)" % (pairs.CFGS_PER_SYSTEM[tier], pairs.NODE_CAP[tier]),
+            "Faulty:<System> (mc/faults.py)": "base histories with at most %d refused (malformed) call(s) anywhere; the call must be "
+            "refused, the counters must not move, the base oracle goes on judging the accepted calls" % faults.K[tier],
+            "counters": "prefixed pair: (kept apart from the module's own anti-vacuity counters)",
+        }
+        cov["rule"] = (cov["rule"] + " Derived families (two interleaved instances; refused calls inside histories) are "
+                       "enumerated the same way and counted in the same totals.").strip()
     if stats.get("deadline_cut"):
         cov["cap"] = "time budget reached; %d subtrees not expanded" % stats["deadline_cut"]
     return {
